@@ -1,5 +1,5 @@
 (* C05: adjointness of the row pass in zero mode, tensor-level model, per (batch, channel, row) line. *)
-From PW Require Import Base.Ops Base.Sum Base.Sig Base.Tensor Model.Dwt Spec.Line Proofs.ConvLine Proofs.DwtNF Proofs.LineTheory Proofs.SfbNF.
+From PW Require Import Base.Ops Base.Sum Base.Sig Base.Tensor Model.Dwt Spec.Line Proofs.ConvLine Proofs.DwtNF Proofs.LineTheory Proofs.SfbNF Proofs.C10Proofs.
 Ltac Zify.zify_post_hook ::= Z.to_euclidean_division_equations.
 
 Section S.
@@ -56,3 +56,52 @@ Proof.
   f_equal. rewrite <- sumZ_add by exact Rth. reflexivity.
 Qed.
 End S.
+
+(* ---------------- periodization, even length >= filter length: backward is the adjoint, line by line ---------------- *)
+Section Per.
+Context {R:Type} (Op:Ops R) (Rth: RingOk Op).
+Add Ring Rr2 : Rth.
+Notation ten := (@ten R).
+Infix "+r" := (radd Op) (at level 50, left associativity).
+Infix "*r" := (rmul Op) (at level 40, left associativity).
+Notation sumZ := (sumZ Op).
+Notation dot := (dot Op).
+
+Lemma ana_per_ext L N h (f g:Z->R) k : 0 < N -> (forall q, 0 <= q < N -> f q = g q) -> ana_per Op L N h f k = ana_per Op L N h g k.
+Proof. intros HN H. unfold ana_per. apply sumZ_ext. intros b Hb. f_equal. apply H. apply Z.mod_pos_bound. exact HN. Qed.
+
+Theorem afb_per_adjoint_row (x G0 G1:ten) L h0 h1 :
+  2 <= L -> L mod 2 = 0 -> tW x mod 2 = 0 -> L <= tW x -> 1 <= tH x -> 0 < tC x ->
+  same_shape G0 G1 = true -> tH G0 = tH x -> tW G0 = tW x / 2 ->
+  is_ok (afb1d Op x L h0 h1 M_PER 3) (fun y =>
+  is_ok (sfb1d Op G0 G1 L h0 h1 M_PER 3) (fun dx =>
+    tW dx = tW x /\
+    forall n c i, 0 <= i < tH x ->
+      dot (tW y) (fun k => tf y n (2*c) i k) (fun k => tf G0 n c i k) +r
+      dot (tW y) (fun k => tf y n (2*c+1) i k) (fun k => tf G1 n c i k)
+      = dot (tW x) (fun q => tf x n c i q) (fun q => tf dx n c i q))).
+Proof.
+  intros HL HLe HWe HLN HH HC Hs HGh HGw.
+  assert (HW: 1 <= tW x) by lia.
+  assert (Hel: even_len (tW x) = tW x) by (unfold even_len; replace (tW x mod 2 =? 1) with false by lia; reflexivity).
+  pose proof (afb1d_per_row Op Rth x L h0 h1 HL HLe ltac:(rewrite Hel; exact HLN) HW HH HC) as Ha.
+  destruct (afb1d Op x L h0 h1 M_PER 3) as [y|]; [|contradiction]. cbn [is_ok] in *.
+  destruct Ha as (A1 & A2 & A3 & A4 & A5). rewrite Hel in *.
+  pose proof (sfb1d_per_row_circ Op Rth G0 G1 L h0 h1 Hs HL HLe ltac:(lia) ltac:(lia) ltac:(lia)) as Hb.
+  destruct (sfb1d Op G0 G1 L h0 h1 M_PER 3) as [dx|]; [|contradiction]. cbn [is_ok] in *.
+  destruct Hb as (B1 & B2 & B3 & B4 & B5).
+  split. { rewrite B4, HGw. lia. }
+  intros n c i Hi. rewrite A4.
+  set (N := tW x) in *. set (xr := fun q => tf x n c i q).
+  assert (E: forall t, 0 <= t < 2 -> forall G, dot (N/2) (fun k => tf y n (2*c+t) i k) G
+            = dot (N/2) (ana_per Op L N (if t =? 0 then h0 else h1) xr) G).
+  { intros t Ht G. apply sumZ_ext. intros k Hk. rewrite A5 by lia. f_equal. unfold afb_per_row_line. fold N. rewrite Hel.
+    unfold hsel. replace ((2*c+t) mod 2) with t by lia. replace ((2*c+t)/2) with c by lia.
+    apply ana_per_ext; [lia|]. intros q Hq. unfold even_ext. replace (q <? N) with true by lia. reflexivity. }
+  pose proof (E 0 ltac:(lia)) as E0. pose proof (E 1 ltac:(lia)) as E1. replace (2*c+0) with (2*c) in E0 by lia.
+  rewrite E0, E1. change (0 =? 0) with true. change (1 =? 0) with false. cbv iota.
+  rewrite !(adjoint_per Op Rth) by lia.
+  unfold dot. rewrite <- sumZ_add by exact Rth. apply sumZ_ext. intros q Hq.
+  rewrite B5 by lia. rewrite HGw. fold N. rewrite (synT_per_syn_per Op Rth). replace (2*(N/2)) with N by lia. unfold xr. ring.
+Qed.
+End Per.
